@@ -10,7 +10,7 @@ from symex.eqlshapes import Item, Other, an, entity, let, symbolic_mode
 from entity_query_language import From
 
 ASSUMPTIONS = [
-    "the domain is a one-shot logging generator; the log length is observed right after each delivered result",
+    "the domain is a one-shot logging generator (also: an iterator class, a map object); the log length is observed right after each delivered result",
     "one result iterator at a time; histories are sequences of NEXT / CLOSE / FULL chosen through the solver (NEXT and FULL "
     "start a new evaluation when none is open)",
     "a later evaluation may be served from the memoised prefix: the expected log length after the k-th result is "
@@ -40,12 +40,35 @@ class C07(Case):
             for i, o in enumerate(items):
                 log.append(i)
                 yield o
+        class LogIter:
+            """a one-shot iterator that is NOT a generator"""
+
+            def __init__(self):
+                self.i = 0
+
+            def __iter__(self):
+                return self
+
+            def __next__(self):
+                if self.i >= len(items):
+                    raise StopIteration
+                log.append(self.i)
+                self.i += 1
+                return items[self.i - 1]
+
+        def lazy_domain():
+            kind = sp.get("dom", "generator")
+            if kind == "iterclass":
+                return LogIter()
+            if kind == "map":
+                return map(lambda i: (log.append(i), items[i])[1], range(len(items)))
+            return gen()
         ys = [Other(a=1, name="y0")]
         with symbolic_mode():
             if sp.get("spelling") == "typed":
-                x = Item(From(gen()))
+                x = Item(From(lazy_domain()))
             else:
-                x = let(Item, domain=gen())
+                x = let(Item, domain=lazy_domain())
             lead = sp.get("lead")
             if lead == "true":          # a constant switch before the condition: the variable is first reached by a RIGHT operand
                 q = an(entity(x, True, S.build(cond, {"x": x})))
@@ -170,6 +193,11 @@ def shapes(tier, seed):
         out.append(dict(cond=leaf, n=n, H=H, spelling="typed"))
         out.append(dict(cond=leaf, n=n, H=H, mixed=True))
         out.append(dict(cond=leaf, n=n, H=H, mixed=True, spelling="typed"))
+    # one-shot iterators that are not generators
+    for dom in ("iterclass", "map"):
+        for c in (core[0], core[7], ["and", core[0], core[1]]):
+            out.append(dict(cond=c, n=4, H=3, dom=dom))
+        out.append(dict(cond=core[1], n=4, H=3, dom=dom, spelling="typed"))
     for lead in ("true", "and_true", "pred_const", "other_var"):
         for c in (core[0], core[7], ["and", core[0], core[1]], ["or", core[1], core[2]]):
             out.append(dict(cond=c, n=4, H=3, lead=lead))
@@ -182,7 +210,7 @@ def shapes(tier, seed):
                     out.append(dict(cond=["not", [op, l1, l2]], n=n, H=H))
     if tier == "thorough":
         skels = list(S.tree_skeletons(3))
-        for _ in range(150):
+        for _ in range(80):
             c = S.fill(rnd.choice(skels), [rnd.choice(core[:4]) for _ in range(3)])
             out.append(dict(cond=rnd.choice(S.negation_variants(c)), n=n, H=H))
     seen, uniq = set(), []
